@@ -26,7 +26,9 @@ func GoID() int64 {
 type callerKey struct{}
 
 // WithCaller tags a context with the harness's caller id (the delegate recognises the caller by it).
-func WithCaller(ctx context.Context, id int) context.Context { return context.WithValue(ctx, callerKey{}, id) }
+func WithCaller(ctx context.Context, id int) context.Context {
+	return context.WithValue(ctx, callerKey{}, id)
+}
 
 // CallerOf returns the caller id of a context, or -1.
 func CallerOf(ctx context.Context) int {
@@ -65,7 +67,9 @@ type GateLimiter struct {
 }
 
 // NewGate wraps a limiter.
-func NewGate(inner core.Limiter) *GateLimiter { return &GateLimiter{Inner: inner, attempts: map[int]int{}} }
+func NewGate(inner core.Limiter) *GateLimiter {
+	return &GateLimiter{Inner: inner, attempts: map[int]int{}}
+}
 
 // Acquire implements core.Limiter.
 func (g *GateLimiter) Acquire(ctx context.Context) (core.Listener, bool) {
